@@ -197,6 +197,46 @@ theorem C13_ext_trailing_dot_fails_witness :
       "bad:static:an existing file with the rule's extension is not sent to the responder" := by
   decide +kernel
 
+/-- WHERE the path is split (`Rule.splitPos`; `buildEnv` cuts DOCUMENT_URI / SCRIPT_NAME right
+behind it and PATH_INFO is the rest — `C13_env_model_verdict_partial`): at the FIRST occurrence of
+the split string under the mode's comparison.  With case-insensitive paths (the default) that is the
+first occurrence in any letter case: no earlier offset carries the split string in any spelling.
+With CASE_SENSITIVE_PATH it is the first occurrence in the configured spelling if there is one, and
+otherwise — no offset carries the configured spelling — the first one in any letter case.
+Letter case is ASCII letter case, so offsets into the folded path are offsets into the path. -/
+theorem C13_split_at_first_occurrence (cs : Bool) (rule : Rule) (p : Bytes) (sp : Nat)
+    (h : splitPos cs rule p = some sp) :
+    (cs = false →
+      toLower rule.split <+: (toLower p).drop sp ∧
+      ∀ j, j < sp → ¬ (toLower rule.split <+: (toLower p).drop j)) ∧
+    (cs = true →
+      (rule.split <+: p.drop sp ∧ ∀ j, j < sp → ¬ (rule.split <+: p.drop j)) ∨
+      ((∀ j, ¬ (rule.split <+: p.drop j)) ∧ toLower rule.split <+: (toLower p).drop sp ∧
+        ∀ j, j < sp → ¬ (toLower rule.split <+: (toLower p).drop j))) := by
+  unfold splitPos at h
+  constructor
+  · intro hcs
+    subst hcs
+    simp only [Bool.false_eq_true, if_false] at h
+    exact ⟨indexOf_at h, indexOf_first h⟩
+  · intro hcs
+    subst hcs
+    simp only [if_true] at h
+    cases he : indexOf p rule.split with
+    | some i =>
+      rw [he] at h
+      simp only [Option.some.injEq] at h
+      subst h
+      exact Or.inl ⟨indexOf_at he, indexOf_first he⟩
+    | none =>
+      rw [he] at h
+      exact Or.inr ⟨indexOf_none he, indexOf_at h, indexOf_first h⟩
+
+/-- `/UP.PHP/report.php` under the php preset, default mode: cut behind `.PHP`, not behind the
+later `.php` (the configured spelling) -/
+example : splitPos false { path := [0x2f], ext := bytes ".php", split := bytes ".php" } (bytes "/UP.PHP/report.php") = some 3 := by
+  decide +kernel
+
 /-! ### environment -/
 
 /-- For every request that `route` sends to rule `j` with script path `f`, the environment the
